@@ -331,9 +331,11 @@ theorem distOutcome_spec (d : DistIn) :
     (distOutcome d = .belowRandom ↔ d.num < 0) ∧
     (distOutcome d = .zeroDivision ↔ 0 ≤ d.num ∧ d.den = 0) ∧
     (distOutcome d = .infinite ↔ d.num = 0 ∧ d.den ≠ 0) ∧
-    (distOutcome d = .finite ↔ 0 < d.num ∧ 0 < d.den) := by
+    (distOutcome d = .notANumber ↔ 0 < d.num ∧ d.den < 0) ∧
+    (distOutcome d = .negative ↔ 0 < d.den ∧ d.den < d.num) ∧
+    (distOutcome d = .finite ↔ 0 < d.num ∧ d.num ≤ d.den) := by
   unfold distOutcome
-  refine ⟨?_, ?_, ?_, ?_⟩ <;> (repeat' split) <;> simp <;> omega
+  refine ⟨?_, ?_, ?_, ?_, ?_, ?_⟩ <;> (repeat' split) <;> simp <;> omega
 
 /-- the formula has a value exactly when `S_max ≠ S_rand` and `S − S_rand`, `S_max − S_rand` have the same strict sign; for an
 optimal score (`S ≤ S_max`) that is: `S > S_rand`.  The code returns a distance in exactly these cases when `S ≥ S_rand`. -/
@@ -344,10 +346,20 @@ theorem distDefined_iff (d : DistIn) (hle : d.num ≤ d.den) :
     · rintro ⟨_, h | h⟩ <;> omega
     · intro h; constructor <;> omega
   · intro h0
-    rw [(distOutcome_spec d).2.2.2]
+    rw [(distOutcome_spec d).2.2.2.2.2]
     unfold DistDefined
     constructor
     · rintro ⟨_, h | h⟩ <;> omega
-    · intro h; exact ⟨by omega, Or.inl h⟩
+    · intro h; exact ⟨by omega, Or.inl ⟨h.1, by omega⟩⟩
+
+/-- without the hypothesis `S ≤ S_max` (matrices whose mismatches outscore matches): the distance would be negative or not a
+number, and the call is refused in exactly these cases -/
+theorem dist_rejects_beyond_max (d : DistIn) (h : d.den < d.num) (h0 : 0 < d.num) :
+    distOutcome d ≠ .finite ∧ (0 < d.den → distOutcome d = .negative) ∧ (d.den < 0 → distOutcome d = .notANumber) := by
+  have hs := distOutcome_spec d
+  refine ⟨?_, ?_, ?_⟩
+  · intro hf; have := hs.2.2.2.2.2.1 hf; omega
+  · intro hd; exact hs.2.2.2.2.1.2 ⟨hd, h⟩
+  · intro hd; exact hs.2.2.2.1.2 ⟨by omega, hd⟩
 
 end BiotiteModel.C11
